@@ -2,28 +2,278 @@
 import os
 import vlib
 
+OPSYM = {"add": "+", "sub": "-", "mul": "*", "div": "/", "mod": "%", "pow": "**", "lt": "<", "le": "<=",
+         "gt": ">", "ge": ">=", "eq": "==", "ne": "!=", "cmp": "<=>", "shl": "<<", "shr": ">>",
+         "and": "&", "or": "|", "xor": "^", "andnot": "&~"}
+BOOL_OPS = ("lt", "le", "gt", "ge", "eq", "ne")
+NOHASH_OPS = BOOL_OPS + ("cmp",)     # `<=>` is typed Int?, Bool results: only inspect is observed
+BIT_OPS = ("and", "or", "xor", "andnot")
+MIN64, MAX64 = -2 ** 63, 2 ** 63 - 1
+
 
 def sign(z):
     z = int(z)
     return "neg" if z < 0 else ("zero" if z == 0 else "pos")
 
 
+def rep(z):
+    return "S" if MIN64 <= int(z) <= MAX64 else "B"
+
+
+def opclass(op, a, b):
+    """canonical class of a case: operator + representation and sign of both operands
+    (+ size class of a shift amount)"""
+    a, b = int(a), int(b)
+    k = "%s:%s%s/%s%s" % (op, rep(a), sign(a), rep(b), sign(b))
+    if op.split(".")[0] in ("shl", "shr"):
+        k += ":amt" + ("<64" if abs(b) < 64 else (">=64" if MIN64 < b <= MAX64 else "huge"))
+    return k
+
+
 def keyfn(inp, obs, exp):
     f = inp.split()
-    op, ra, a, rb, b = f[:5]
-    return "%s:%s%s/%s%s:%s" % (op, ra, sign(a), rb, sign(b), obs.split()[0])
+    return "%s:%s%s" % (opclass(f[0], f[2], f[4]), obs.split()[0], ":operand-mutated" if obs.endswith("MUT") else "")
+
+
+# ---------------------------------------------------------------- c06.vm
+
+def lit(z):
+    return str(z) if z >= 0 else "(%d)" % z
+
+
+def boundary(r):
+    z = 2 ** r.choice([0, 1, 7, 8, 16, 31, 32, 53, 62, 63, 64, 65, 100, 128]) + r.range(-3, 3)
+    if r.chance(1, 2):
+        z = -z
+    return r.range(-3, 3) if r.chance(1, 12) else z
+
+
+def randbits(r, bits):
+    z = 0
+    for _ in range((bits + 63) // 64):
+        z = (z << 64) | r.next()
+    z >>= ((bits + 63) // 64) * 64 - bits
+    return -z if r.chance(1, 2) else z
+
+
+def gen_vm_case(r):
+    """(op, a, b): many cases produce a SMALL result through BIG intermediate values"""
+    op = r.choice(["add", "sub", "mul", "div", "mod", "pow", "neg", "lt", "le", "gt", "ge", "eq", "ne", "cmp",
+                   "shl", "shr", "shl", "shr", "and", "or", "xor", "andnot"])
+    a = boundary(r) if r.chance(1, 2) else randbits(r, r.range(1, 160))
+    b = boundary(r) if r.chance(1, 2) else randbits(r, r.range(1, 160))
+    if r.chance(1, 3):   # small result out of big operands
+        c = randbits(r, r.range(64, 150)) or 2 ** 70
+        d = r.range(-1000, 1000)
+        if op == "sub":
+            a, b = c + d, c
+        elif op == "add":
+            a, b = c, -c + d
+        elif op == "div":
+            a, b = c * d, c
+        elif op == "mod":
+            a, b = c * 3 + (abs(d) if c > 0 else -abs(d)), c
+        elif op == "xor":
+            a, b = c, c ^ d
+        elif op == "and":
+            a, b = c, abs(d)
+        elif op == "andnot":
+            a, b = c, c ^ abs(d)
+        elif op == "shr":
+            a, b = c, r.range(60, 160)
+        elif op == "shl":
+            a, b = c, -r.range(60, 160)
+    if op in ("div", "mod") and b == 0:
+        b = 7
+    if op == "pow":
+        b = r.range(0, 66)
+        if abs(a) >= 2 ** 40:
+            a = r.range(-12, 12)
+    if op in ("shl", "shr"):
+        if not r.chance(1, 3) or abs(b) > 2 ** 80:
+            b = r.choice([r.range(-3, 3), r.range(-70, 70), r.range(-200, 200), r.choice([62, 63, 64, 65, -63, -64, -65])])
+        # keep the exact result materialisable: left by at most 300 bits unless the operand is 0
+        left = b if op == "shl" else -b
+        if left > 300 and a != 0:
+            b = -b
+    if op in ("eq", "ne", "le", "ge", "lt", "gt", "cmp") and r.chance(1, 3):
+        b = a + r.range(-1, 1)
+    if op == "neg":
+        b = 0
+        if r.chance(1, 3):
+            a = r.choice([2 ** 63, -2 ** 63, 2 ** 63 - 1, -2 ** 63 + 1, 2 ** 63 + 1, -2 ** 63 - 1])
+    return op, a, b
+
+
+SHAPES = ("L", "T", "G")
+
+
+def shape_code(i, sh, op, a, b, exp):
+    """Elk statements for one case in one shape; prints '<i> <shape> <inspect> <==expected> <hash==> <left operand afterwards>'"""
+    v = "%s%d" % (sh.lower(), i)
+    if sh == "L":
+        x, y, decl = lit(a), lit(b), ""
+    elif sh == "T":
+        x, y = "a" + v, "b" + v
+        decl = "var %s: Int = %s\nvar %s: Int = %s\n" % (x, lit(a), y, lit(b))
+    else:
+        x, y = "a" + v, "b" + v
+        if op in BIT_OPS:
+            return None     # no union of builtin types admits & | ^ &~: the generic opcode is unreachable
+        if op in ("shl", "shr"):
+            decl = "var %s: Int | Int64 = %s\nvar %s: Int = %s\n" % (x, lit(a), y, lit(b))
+        else:
+            decl = "var %s: Int | Float = %s\nvar %s: Int | Float = %s\n" % (x, lit(a), y, lit(b))
+    expr = "-%s" % x if op == "neg" else "%s %s %s" % (x, OPSYM[op], y)
+    code = decl + "r%s := %s\n" % (v, expr)
+    after = '"-"' if sh == "L" else x + ".inspect"    # the left operand must not have been changed by the operation
+    if op in NOHASH_OPS:
+        code += 'println("%d %s " + r%s.inspect + " - - " + %s)\n' % (i, sh, v, after)
+    else:
+        code += 'println("%d %s " + r%s.inspect + " " + (r%s == %s).inspect + " " + (r%s.hash == %s.hash).inspect + " " + %s)\n' % (
+            i, sh, v, v, lit(exp), v, lit(exp), after)
+    return code
+
+
+def vm_stream(ctx, elk, model):
+    stream = "c06.vm"
+    r = ctx.rng(stream)
+    cases = []
+    corpus = os.path.join(vlib.ROOT, "corpus", "C06.vm.txt")
+    if os.path.exists(corpus):
+        for l in open(corpus):
+            f = l.split("#")[0].split()
+            if len(f) == 3:
+                cases.append((f[0], int(f[1]), int(f[2])))
+    ncorpus = len(cases)
+    for _ in range(ctx.n(330, 45000)):
+        cases.append(gen_vm_case(r))
+    ids = [str(i) for i in range(len(cases))]
+    inputs = {str(i): "%s %s %d %s %d" % (c[0], rep(c[1]), c[1], rep(c[2]), c[2]) for i, c in enumerate(cases)}
+    rc, spec, mout = vlib.run_model(model, ids, inputs, args=["spec"])
+    if rc != 0 or len(spec) != len(ids):
+        ctx.broke("c06.vm: model driver (spec mode) failed", mout[-2000:])
+        return
+    expected = {}
+    for i, c in enumerate(cases):
+        e = spec[str(i)]
+        expected[i] = {"T": "true", "F": "false"}.get(e, e)
+    B = 30
+    progs, members = [], {}
+    starts = ([0] if ncorpus else []) + list(range(ncorpus, len(cases), B))     # the corpus is a batch of its own
+    for bi, p0 in enumerate(starts):
+        p1 = starts[bi + 1] if bi + 1 < len(starts) else len(cases)
+        src = []
+        for i in range(p0, p1):
+            op, a, b = cases[i]
+            for sh in SHAPES:
+                code = shape_code(i, sh, op, a, b, 0 if op in NOHASH_OPS else int(expected[i]))
+                if code:
+                    src.append(code)
+        name = "p%d" % p0
+        progs.append((name, "".join(src)))
+        members[name] = range(p0, p1)
+    wd = os.path.join(ctx.workdir, "vm")
+    res = vlib.run_programs(elk, progs, wd, timeout=60)
+    got = {}         # (i, shape) -> (inspect, eq, hash) | ("CRASH", outcome, first line)
+    rerun = []
+    for name, (rc, out, cls) in res.items():
+        if cls == "ok":
+            for l in out.splitlines():
+                f = l.split(" ")
+                if len(f) == 6 and f[0].isdigit():
+                    got[(int(f[0]), f[1])] = (f[2], f[3], f[4], f[5])
+        else:
+            rerun.append(name)
+    # a failing batch is re-run one case and shape per program to isolate the culprit
+    budget = ctx.n(2, 40)
+    singles = []
+    for name in sorted(rerun, key=lambda s: int(s[1:]))[:budget]:
+        for i in members[name]:
+            op, a, b = cases[i]
+            for sh in SHAPES:
+                code = shape_code(i, sh, op, a, b, 0 if op in NOHASH_OPS else int(expected[i]))
+                if code:
+                    singles.append(("s%d%s" % (i, sh), code))
+    skipped = max(0, len(rerun) - budget)
+    if singles:
+        res2 = vlib.run_programs(elk, singles, wd, timeout=30)
+        for name, (rc, out, cls) in res2.items():
+            i, sh = int(name[1:-1]), name[-1]
+            if cls == "ok":
+                for l in out.splitlines():
+                    f = l.split(" ")
+                    if len(f) == 6 and f[0].isdigit():
+                        got[(int(f[0]), f[1])] = (f[2], f[3], f[4], f[5])
+            else:
+                msg = next((x for x in out.splitlines() if "panic" in x or "error" in x.lower() or "FAIL" in x), out[:200])
+                got[(i, sh)] = ("CRASH", cls, msg.strip()[:160])
+    evals, distinct, dist, mism = 0, set(), {}, 0
+    samples = []
+    for i, (op, a, b) in enumerate(cases):
+        for sh in SHAPES:
+            if sh == "G" and op in BIT_OPS:
+                continue
+            g = got.get((i, sh))
+            if g is None:
+                continue      # member of a failing batch beyond the re-run budget
+            evals += 1
+            dist[op + "/" + sh] = dist.get(op + "/" + sh, 0) + 1
+            if abs(a) > 4 or abs(b) > 4:
+                distinct.add((op, a, b, sh))
+            if len(samples) < 3:
+                samples.append({"input": "%s %d %d shape=%s" % (op, a, b, sh), "observed": " ".join(g)})
+            kind = None
+            if g[0] == "CRASH":
+                kind = "crash-" + g[1]
+            elif g[0] != expected[i]:
+                kind = "value"
+            elif g[1] == "false":
+                kind = "not-equal-to-same-integer"
+            elif g[2] == "false":
+                kind = "hash-differs-from-same-integer"
+            elif g[3] not in ("-", str(a)):
+                kind = "operand-mutated"
+            if kind:
+                mism += 1
+                if mism <= 300:
+                    ctx.fail("vm:%s:%s:%s" % (opclass(op, a, b), sh, kind),
+                             "%s %s %s in shape %s (L=literals/folded, T=typed Int locals, G=union-typed locals): elk gives %s, exact result %s"
+                             % (lit(a), OPSYM.get(op, "-@"), lit(b), sh, " ".join(g), expected[i]),
+                             stream=stream, case="%s %d %d" % (op, a, b), impl=" ".join(g), model=expected[i],
+                             oracle="inspect of the result must be the exact integer; result == literal and result.hash == literal.hash must be true; the left operand must be unchanged")
+    if skipped:
+        ctx.extra["c06.vm.failing_batches_not_isolated"] = skipped
+    ctx.stream(stream, evals, len(distinct),
+               "seeded operand pairs (boundary clusters, random 1-160 bit values, big operands with small results) x 21 "
+               "operators x 3 program shapes run on `elk run` (30 cases per program); gating observables: inspect of the "
+               "result, result == <exact literal>, result.hash == <exact literal>.hash; %d corpus cases first; "
+               "non-trivial = some operand outside [-4,4]" % ncorpus,
+               samples, dist, mismatches=mism, programs=len(progs) + len(singles))
 
 
 def run(ctx):
-    ctx.explanation = ("Theorems over all pairs of canonical Ints (unbounded Z) for + - * / % on the Go-mirroring model; "
-                       "the tie runs value.*Val on the same operands (small/big representations, boundary clusters) "
-                       "and compares result value AND representation with the extracted model.")
-    ctx.trusted_base += ["math/big modelled as Z (Add/Sub/Mul/Quo/Rem/IsInt64) - validated by the stream, not proved"]
+    ctx.explanation = (
+        "Proved (Coq, all canonical Int pairs over unbounded Z, model mirrors value/small_int.go and value/big_int.go after "
+        "fixes/C06-int-shift-negate-andnot.patch): + - * / % exact with ZeroDivisionError iff divisor 0; unary minus; ** for "
+        "exponent >= 0; > >= < <= == <=>; & | ^ &~; << >> for every SmallInt amount except MinSmallInt unconditionally, and for "
+        "MinSmallInt/BigInt amounts under a guard excluding only unrepresentable values (non-zero value shifted left by >= 2^63 "
+        "bits; operand longer than a >= 2^63-bit right shift); every result canonical (Small iff it fits), hence == / hash / "
+        "inspect cannot depend on the representation; shifts never panic. NOT proved, only differential-tested: that the Go code "
+        "equals the model (c06.val: value.*Val and value.*Ints entry points incl. operand-mutation detection; c06.vm: folded, "
+        "typed-opcode and generic-opcode program shapes on the real binary). math/big and xxhash are trusted; memory exhaustion "
+        "for left shifts beyond ~2^31 bits and ** with negative exponents (Go's Exp returns 1) are outside the claim.")
+    ctx.trusted_base += ["math/big modelled as Z (Add/Sub/Mul/Quo/Rem/Exp/Lsh/Rsh/And/Or/Xor/AndNot/Cmp/IsInt64) - validated by the streams, not proved",
+                         "Elk's Int#hash and inspect taken as functions of the canonical value (xxhash, strconv trusted)"]
     ctx.run_proof_gate()
     h = vlib.build_harness("c06")
-    m = vlib.build_model("C06")
-    vlib.value_stream(ctx, "c06.val", h, m, ctx.n(4000, 400000), keyfn,
+    m = vlib.build_model_exact("C06")
+    vlib.value_stream(ctx, "c06.val", h, m, ctx.n(6000, 400000), keyfn,
                       "seeded operands from boundary clusters (0, +-1, +-2^k+-3 for k in 0..128) and random 1-200 bit values, "
-                      "x 5 operators; non-trivial = at least one operand outside [-4,4]; distinct by full input",
+                      "x 19 operators x 2 entry points (value.*Val / value.*Ints); shift amounts around 0, 63-66, 127-129, "
+                      "+-300 and amounts beyond 64 bits; result value AND representation AND operand immutability compared "
+                      "with the extracted model; non-trivial = at least one operand outside [-4,4]; distinct by full input",
                       corpus=os.path.join(vlib.ROOT, "corpus", "C06.val.txt"),
                       nontrivial=lambda i, o: any(abs(int(x)) > 4 for x in (i.split()[2], i.split()[4])))
+    elk = vlib.build_elk()
+    vm_stream(ctx, elk, m)
